@@ -139,4 +139,25 @@ example : wallCorners a345 ⟨-1, 0⟩ Ang.half ⟨⟨10, 2, 3⟩, a345, 3⟩ [(
      placeSpec a345 ⟨⟨10, 2, 3⟩, a345, 3⟩ ⟨4, 0, 3⟩, placeSpec a345 ⟨⟨10, 2, 3⟩, a345, 3⟩ ⟨0, 0, 3⟩] := by
   decide +kernel
 
+
+/-! ## rectangular shades -/
+
+/-- **a rectangular shade keeps its corner points**: for every deviation of the building, every azimuth and tilt of the shade and every
+    origin, the converted surface maps `(u, v)` to the point the source convention gives — in particular the four corners
+    `(0,0), (w,0), (w,h), (0,h)` -/
+theorem rect_shade_point (g a t : Ang) (o : Vec3) (u v : Rat) :
+    toGlobal (rotZ (Ang.neg g) o) (azimuth52016 g Ang.zero a) t u v = rectShadeSpec g a t o u v := by
+  unfold toGlobal rectShadeSpec azimuth52016 vadd vsmul Ang.add Ang.neg Ang.pi Ang.zero
+  apply vec3_ext <;> simp [rotZ, rotX] <;> ring
+
+theorem rect_shade_corners (g a t : Ang) (o : Vec3) (w h : Rat) :
+    rectShadeCorners g a t o w h =
+      [rectShadeSpec g a t o 0 0, rectShadeSpec g a t o w 0, rectShadeSpec g a t o w h, rectShadeSpec g a t o 0 h] := by
+  simp [rectShadeCorners, rect_shade_point]
+
+/-- its area is `w · h` whatever the pose (the polygon is the rectangle itself) -/
+theorem rect_shade_area (w h : Rat) : shoelace2 [(0, 0), (w, 0), (w, h), (0, h)] = 2 * (w * h) := by
+  simp [shoelace2, shoelaceFrom, cross2]
+  ring
+
 end Cte.Props.C03
